@@ -62,7 +62,7 @@ func XVDeath(sys *System, agentPath string) {
 
 // XVStoreContext / XVDeletePath: another actor registered / unregistered under a path.
 func XVStoreContext(sys *System, path string, ctx *Context) { sys.actorContexts.Store(path, ctx) }
-func XVDeletePath(sys *System, path string)                { sys.actorContexts.Delete(path) }
+func XVDeletePath(sys *System, path string)                 { sys.actorContexts.Delete(path) }
 
 // XVLookup reports what is registered under path: 0 nothing, 1 an actor context, 2 a future.
 func XVLookup(sys *System, path string) (kind int, ctx *Context, fut *future.Future[vivid.Message]) {
